@@ -79,9 +79,15 @@ func (c *AdminOP) SetCallback(cb func(app *AdminDBApp,data []byte) error) {
 
 type AdminCallback func(app *AdminDBApp,data []byte) error
 
+// AdminContractAddress is the address of the Admin contract of the genesis allocation (core.AdminTo).
+// It is the only caller the admin precompile accepts: the contract prepends its own msg.sender to the
+// payload, so the `from` the precompile reads is the account that really submitted the request.
+var AdminContractAddress = common.HexToAddress("0x02000000")
+
 type AdminOP struct {
 	callback AdminCallback
 	state StateDB
+	caller common.Address
 }
 
 type AdminDBApp struct {
@@ -107,7 +113,16 @@ func (c *AdminOP)SetState(s StateDB){
 	c.state = s
 }
 
+// SetCaller records the address that is calling the precompile (Contract.CallerAddress).
+func (c *AdminOP) SetCaller(addr common.Address) {
+	c.caller = addr
+}
+
 func (c *AdminOP) Run(input []byte) ([]byte, error) {
+	// `from` below is part of the payload: trust it only when the payload was built by the Admin contract.
+	if c.caller != AdminContractAddress {
+		return nil, fmt.Errorf("admin precompile called by %x, only the admin contract %x may call it", c.caller, AdminContractAddress)
+	}
 	//[$len + $arg]
 	dlen := new(big.Int).SetBytes(input[:32]).Uint64()
 	offset := dlen + 32
